@@ -966,7 +966,6 @@ static int32_t reconstruct_omitted_chunk(struct jls_core_s * self, uint16_t sign
             memset(d, value, sz_bytes);
         } else {
             memset(d, 0, sz_bytes);  // for now, set to zero
-            break;
         }
         d += sz_bytes;
         ++s_index;
